@@ -110,4 +110,5 @@ def segy_view(path, max_headers=400):
         v['traces'] = np.stack([np.asarray(f.trace[i]).copy() for i in range(f.tracecount)])
     with open(path, 'rb') as fh:
         v['filehdr'] = fh.read(3600)
+    v['path'] = path
     return v
